@@ -74,7 +74,7 @@ struct SparseOps {
       default: out.tag("?"); break;
     }
   }
-  static constexpr OpDef def = {Tag::sparse, "D", kSparseNFn, kSparseFn, 4, 8, 0, 0, &prep, &run};
+  static constexpr OpDef def = {Tag::sparse, "D", kSparseNFn, kSparseFn, 6, 8, 0, 0, &prep, &run};
 };
 
 #define REG_SPARSE(G, NAME) \
